@@ -104,6 +104,24 @@ fn lockstep<S: Spec>(seed: &[u8], n_out: usize, image_every: usize, mix_widths: 
                         return false;
                     }
                 }
+                // the same state through a self-describing snapshot whose members arrive in
+                // another order (restoring must give the generator back, stream and all)
+                if !crate::util::REDUCED.load(std::sync::atomic::Ordering::Relaxed) && (k / image_every) % 4 == 0 {
+                    if let Some(text) = S::json(&rng) {
+                        let re = crate::util::reorder_json(&text, (k % 3) as u8);
+                        r.eval();
+                        let bad = match S::from_json(&re) {
+                            Some(Ok(g)) => if S::eq(&g, &rng) == Some(false) { Some("restored generator differs".to_string()) } else { None },
+                            Some(Err(e)) => Some(format!("deserialize failed: {}", e)),
+                            None => None,
+                        };
+                        if let Some(why) = bad {
+                            r.violation(format!("{}:state_through_reordered_json", S::NAME), sub, id,
+                                json!({"type": S::NAME, "seed": hex(seed), "after_steps": k + 1, "document": re, "why": why}));
+                            return false;
+                        }
+                    }
+                }
                 {
                     let twin = S::from_seed(&ms);
                     if let Some(eq) = S::eq(&rng, &twin) {
